@@ -118,7 +118,7 @@ PROPS = {
                         "whether a remote write is accepted is observed from its result, not predicted (C03/C04 own the gate)"],
         "runs": [
             {"name": "subs", "run": "TestSubscriptions", "kind": "rapid", "checks": {Q: 8000, T: 400000}, "shards": {Q: 4, T: 16}, "steps": {Q: 20, T: 40}},
-            {"name": "mix", "run": "TestSubscriptionMixStress", "kind": "plain", "shards": {Q: 2, T: 16}, "env": {"VERIF_ROUNDS": {Q: 400, T: 12000}}},
+            {"name": "mix", "run": "TestSubscriptionMixStress", "kind": "plain", "shards": {Q: 4, T: 16}, "env": {"VERIF_ROUNDS": {Q: 1500, T: 12000}}},
         ],
     },
     "C09": {
